@@ -342,6 +342,14 @@ fn span_json(s: &tx3_lang::ast::Span) -> Value {
     serde_json::to_value(s).unwrap_or(Value::Null)
 }
 
+/// What the diagnostic hands to whoever displays it: the first label as (offset, length), and whether the text the
+/// diagnostic carries can be read at that place.
+fn label_json(d: &dyn miette::Diagnostic) -> Value {
+    let Some(l) = d.labels().and_then(|mut ls| ls.next()) else { return Value::Null };
+    let readable = d.source_code().map(|src| src.read_span(l.inner(), 0, 0).is_ok());
+    json!({"offset": l.offset(), "len": l.len(), "readable": readable})
+}
+
 fn analysis_error_json(e: &tx3_lang::analyzing::Error) -> Value {
     use tx3_lang::analyzing::Error as E;
     let (kind, name) = match e {
@@ -356,7 +364,7 @@ fn analysis_error_json(e: &tx3_lang::analyzing::Error) -> Value {
         #[allow(unreachable_patterns)]
         _ => ("Other", None),
     };
-    json!({"kind": kind, "name": name, "span": span_json(e.span())})
+    json!({"kind": kind, "name": name, "span": span_json(e.span()), "label": label_json(e)})
 }
 
 /// Seconds after which one source text counts as not terminating.
@@ -664,7 +672,7 @@ fn observe_inner(input: &str) -> Value {
         Ok(Err(e)) => {
             let same = e.src == input;
             json!({"err": {"message": e.message.chars().take(200).collect::<String>(), "src_is_input": same,
-                           "src": if same { Value::Null } else { json!(e.src) }, "span": span_json(&e.span)}})
+                           "src": if same { Value::Null } else { json!(e.src) }, "span": span_json(&e.span), "label": label_json(&e)}})
         }
         Err(site) => json!({"panic": site}),
     };
